@@ -1,4 +1,4 @@
-import Dashu.Model.Ratio.Ops
+import Dashu.Model.Ratio.Prog
 import Dashu.Model.Int.PowGuard
 /-
   C04 round 6 (FRONTIER entry "pow with an exponent beyond memory"): `Repr::pow` (rational/src/mul.rs)
@@ -31,5 +31,23 @@ def powChecked (W : Nat) (x : Q) (n : Nat) : Except PanicKind Q :=
   if upowPanics W x.num.natAbs n then .error .allocTooMuch
   else if upowPanics W x.den n then .error .allocTooMuch
   else .ok (pow x n)
+
+/-- one program step with the guarded `pow` (every other op as in `step`) -/
+def stepG (W : Nat) (env : List Reg) (op : Op) : StepRes :=
+  match op with
+  | .pow i n =>
+    match env[i]? with
+    | some a => liftQ a.kind (powChecked W a.q n)
+    | none => .bad
+  | _ => step env op
+
+/-- `run` with the guarded `pow`: what the driver executes for `qp.prog` (a panic stops the program) -/
+def runG (W : Nat) : List Op → List Reg → List Reg × Stop
+  | [], env => (env, .done)
+  | op :: ops, env =>
+    match stepG W env op with
+    | .ok r => runG W ops (env ++ [r])
+    | .panic k => (env, .panic k)
+    | .bad => (env, .bad)
 
 end Dashu.Model.Ratio
